@@ -26,6 +26,103 @@ def impl_family(fam: dict) -> dict:
     return history.run_family(fam)
 
 
+def impl_forms_in_threads(_: dict) -> dict:
+    """Every entry point under real concurrency: 8 threads use ONE decorated function / dataclass / NamedTuple / pydantic model /
+    annotation object at the same time, each with its own sizes (and one thread with an inconsistent pair).  The arrays are
+    instances of an ndarray subclass whose `shape` attribute waits at a barrier on its first read in each round, so all threads
+    are inside the checker together (the class forms have no body in which they could meet).  Every outcome must be the one
+    the same call gives alone."""
+    import dataclasses
+    import threading
+    from typing import Annotated, NamedTuple
+
+    import numpy as np
+    import pydantic
+
+    import dltype
+
+    NTH, ROUNDS = 8, 6
+    barriers = [threading.Barrier(NTH) for _ in range(ROUNDS)]
+    tl = threading.local()
+
+    class Meet(np.ndarray):
+        @property
+        def shape(self):  # noqa: ANN202
+            r = getattr(tl, "round", None)
+            if r is not None and not getattr(tl, "met", True):
+                tl.met = True
+                try:
+                    barriers[r].wait(timeout=1)
+                except threading.BrokenBarrierError:
+                    pass
+            return np.ndarray.shape.__get__(self)
+
+    X = Annotated[np.ndarray, dltype.FloatTensor["a b"]]
+    Y = Annotated[np.ndarray, dltype.FloatTensor["b a+1"]]
+
+    def f(x, y):
+        return None
+
+    f.__annotations__ = {"x": X, "y": Y}
+    g = dltype.dltyped()(f)
+    DC = dltype.dltyped_dataclass()(dataclasses.make_dataclass("DC", [("x", X), ("y", Y)]))
+    NT = dltype.dltyped_namedtuple()(NamedTuple("NT", [("x", X), ("y", Y)]))
+    PM = pydantic.create_model("PM", __config__=pydantic.ConfigDict(arbitrary_types_allowed=True), x=(X, ...), y=(Y, ...))
+    ax, ay = dltype.FloatTensor["a b"], dltype.FloatTensor["b a+1"]
+
+    def both(x, y):
+        ax.check(x, "x")
+        ay.check(y, "y")
+
+    forms = {"function": lambda x, y: g(x, y), "dataclass": lambda x, y: DC(x, y), "namedtuple": lambda x, y: NT(x, y),
+             "pydantic": lambda x, y: PM(x=x, y=y), "model_validate": lambda x, y: PM.model_validate({"y": y, "x": x}), "check": both}
+
+    def outcome(call, x, y) -> str:
+        try:
+            call(x, y)
+            return "accept"
+        except dltype.DLTypeError as e:
+            return type(e).__name__ + ":" + str(e).split("] ")[-1]
+        except pydantic.ValidationError:
+            return "pydantic.ValidationError"
+        except BaseException as e:  # noqa: BLE001
+            return "OTHER " + type(e).__name__
+
+    def values(t: int, r: int):
+        a, b = 1 + (t + r) % 5, 2 + t
+        x = np.zeros((a, b), dtype=np.float32).view(Meet)
+        bad = (t == r % NTH)                     # one thread per round hands in an inconsistent pair
+        y = np.zeros((b, a + (2 if bad else 1)), dtype=np.float32).view(Meet)
+        return x, y
+
+    problems, n = [], 0
+    for fname, call in forms.items():
+        alone = [[outcome(call, *values(t, r)) for r in range(ROUNDS)] for t in range(NTH)]
+        got = [[None] * ROUNDS for _ in range(NTH)]
+
+        def worker(t: int, call=call, got=got) -> None:
+            for r in range(ROUNDS):
+                x, y = values(t, r)
+                tl.round, tl.met = r, False
+                got[t][r] = outcome(call, x, y)
+            tl.round = None
+
+        for b in barriers:
+            b.reset()
+        ths = [threading.Thread(target=worker, args=(t,)) for t in range(NTH)]
+        for th in ths:
+            th.start()
+        for th in ths:
+            th.join(timeout=60)
+        for t in range(NTH):
+            for r in range(ROUNDS):
+                n += 1
+                if got[t][r] != alone[t][r]:
+                    problems.append({"what": "a construction / call running concurrently with others of the same decorated object differs from the same one alone",
+                                     "form": fname, "thread": t, "round": r, "alone": alone[t][r], "concurrent": got[t][r]})
+    return {"n": n, "problems": problems[:20]}
+
+
 def impl_inplace(_: dict) -> dict:
     """The same array object is validated again after its shape / dtype was changed IN PLACE: every validation judges the object
     as it is then (function, dataclass, NamedTuple, pydantic model, standalone check; numpy and torch)."""
@@ -247,7 +344,7 @@ def run(tier: str, seed: int, rep: Report, model: Model) -> dict:
     rep.rule = ("families of 3 functions sharing 1-4 annotation aliases (optional and not) and a provider (fresh or long-lived dict), random "
                 "decoration order, 4-8 steps (calls conforming / resized / None, provider updates in place or by rebinding); thread runs "
                 "with 8 threads; nested checked calls; distinct = distinct family; non-trivial = an alias is used both with and without | None")
-    rep.rule += '; a quarter of the families lazy (quoted alias names resolved at the first call, one decorator object shared by the siblings); nested runs incl. recursion and inner calls from a joined thread; thread runs with a rendezvous inside the body and inside get_dltype_scope of the provider; one array object changed in place between validations (function, dataclass, NamedTuple, pydantic, check; numpy and torch); bodies that re-rank their argument in place'
+    rep.rule += '; a quarter of the families lazy (quoted alias names resolved at the first call, one decorator object shared by the siblings); nested runs incl. recursion and inner calls from a joined thread; thread runs with a rendezvous inside the body and inside get_dltype_scope of the provider; all six entry points (function, dataclass, NamedTuple, pydantic, model_validate, check) from 8 threads that meet inside the first read of tensor.shape; one array object changed in place between validations (function, dataclass, NamedTuple, pydantic, check; numpy and torch); bodies that re-rank their argument in place'
     fams = []
     while len(fams) < n_seq:
         f = gen_family(rnd)
@@ -265,11 +362,16 @@ def run(tier: str, seed: int, rep: Report, model: Model) -> dict:
     try:
         results = worker.call_many("impl_family", [f for _, f in fams], timeout=60.0)
         inplace = worker.call("impl_inplace", {}, timeout=120.0)
+        inthreads = worker.call("impl_forms_in_threads", {}, timeout=180.0)
     finally:
         worker.close()
     rep.case("same_object_changed_in_place", inplace)
     rep.count("inplace_observations", inplace.get("n", 0))
     for pr in inplace.get("problems", [{"what": "the in-place run did not finish", "detail": inplace}] if "problems" not in inplace else []):
+        rep.violation(pr)
+    rep.case("forms_in_threads", inthreads)
+    rep.count("forms_in_threads_observations", inthreads.get("n", 0))
+    for pr in inthreads.get("problems", [{"what": "the forms-in-threads run did not finish", "detail": inthreads}] if "problems" not in inthreads else []):
         rep.violation(pr)
     for (kind, fam), res in zip(fams, results):
         if "__skipped__" in res:
